@@ -1,6 +1,351 @@
-//! C14 — not implemented yet.
-use mc_core::Ctx;
+//! C14 — a database overlay behaves like the database with the commits applied.
+//!
+//! Explicit-state exploration of commit histories on the real `SubstateDatabaseOverlay` over three base
+//! contents. After every commit the overlay (unmergeable flavour, rebuilt from the history) is compared
+//! with the base database that received the same commits directly (the right-hand side of the
+//! statement): point reads, listings from the start and from eight cursors, for five partitions; then a
+//! mergeable overlay with the same history is merged into a copy of the base and the whole database is
+//! compared. `list_partition_keys` of the overlay is not part of the statement and is not compared.
+use crate::alphabet::*;
+use mc_core::{bfs, BfsStats, Ctx, Level, Machine};
+use radix_substate_store_impls::memory_db::InMemorySubstateDatabase;
+use radix_substate_store_impls::substate_database_overlay::SubstateDatabaseOverlay;
+use radix_substate_store_interface::interface::*;
+use serde_json::json;
+use std::collections::BTreeMap;
 
-pub fn run(_ctx: Ctx) -> ! {
-    mc_core::machinery_error("C14: not implemented")
+const A: &[u8] = &[0xA0];
+const B: &[u8] = &[0xB0];
+
+fn sort_keys() -> Vec<Sort> {
+    vec![vec![0], vec![1], vec![1, 0], vec![2]]
+}
+
+/// cursors: every key, a key between two keys (two of them), before everything, past the end
+fn cursors() -> Vec<Sort> {
+    vec![vec![], vec![0], vec![0, 5], vec![1], vec![1, 0], vec![1, 0, 0], vec![2], vec![9]]
+}
+
+fn observed_partitions() -> Vec<PKey> {
+    vec![(A.to_vec(), 0), (A.to_vec(), 1), (B.to_vec(), 0), (B.to_vec(), 1), (A.to_vec(), 7)]
+}
+
+fn bases() -> Vec<(&'static str, Commit)> {
+    let set = |k: &[u8], v: u8| (k.to_vec(), vec![v]);
+    vec![
+        ("empty", Commit(vec![])),
+        ("sparse", Commit(vec![Atom::new(A, 0, PU::Reset(vec![set(&[1], 0xB1), set(&[1, 0], 0xB2)])), Atom::new(B, 1, PU::Reset(vec![set(&[0], 0xB3)]))])),
+        (
+            "dense",
+            Commit(vec![
+                Atom::new(A, 0, PU::Reset(vec![set(&[0], 0xC0), set(&[1], 0xC1), set(&[1, 0], 0xC2), set(&[2], 0xC3)])),
+                Atom::new(A, 1, PU::Reset(vec![set(&[0], 0xC4), set(&[2], 0xC5)])),
+                Atom::new(B, 0, PU::Reset(vec![set(&[1, 0], 0xC6)])),
+                Atom::new(B, 1, PU::Reset(vec![set(&[1], 0xC7), set(&[2], 0xC8)])),
+            ]),
+        ),
+    ]
+}
+
+/// Commit alphabet. `full` = every (key, value) combination of the design; otherwise the core subset.
+fn alphabet(full: bool) -> Vec<Commit> {
+    let ks = sort_keys();
+    let v1 = vec![1u8];
+    let v2 = vec![2u8];
+    let mut out = vec![];
+    for (node, part) in [(A, 0u8), (A, 1), (B, 0)] {
+        let mut push = |pu: PU| out.push(Commit::one(Atom::new(node, part, pu)));
+        // sets
+        for (i, k) in ks.iter().enumerate() {
+            push(PU::Delta(vec![(k.clone(), Some(v1.clone()))]));
+            if full || i == 1 {
+                push(PU::Delta(vec![(k.clone(), Some(v2.clone()))]));
+            }
+        }
+        // deletes
+        for k in &ks {
+            push(PU::Delta(vec![(k.clone(), None)]));
+        }
+        // set k; delete k'
+        for (i, k) in ks.iter().enumerate() {
+            for (j, k2) in ks.iter().enumerate() {
+                if i == j {
+                    continue;
+                }
+                if full || j == (i + 1) % ks.len() {
+                    push(PU::Delta(vec![(k.clone(), Some(v2.clone())), (k2.clone(), None)]));
+                }
+            }
+        }
+        // resets
+        push(PU::Reset(vec![]));
+        for (i, k) in ks.iter().enumerate() {
+            if full || i == 1 || i == 2 {
+                push(PU::Reset(vec![(k.clone(), v1.clone())]));
+            }
+        }
+        for i in 0..ks.len() {
+            for j in (i + 1)..ks.len() {
+                if full || (i, j) == (0, 3) || (i, j) == (1, 2) {
+                    push(PU::Reset(vec![(ks[i].clone(), v1.clone()), (ks[j].clone(), v2.clone())]));
+                }
+            }
+        }
+    }
+    // two-partition commits
+    out.push(Commit(vec![Atom::new(A, 0, PU::Delta(vec![(vec![1], Some(v2.clone()))])), Atom::new(A, 1, PU::Reset(vec![]))]));
+    out.push(Commit(vec![Atom::new(A, 0, PU::Reset(vec![(vec![1, 0], v1.clone())])), Atom::new(B, 0, PU::Delta(vec![(vec![1, 0], None)]))]));
+    out
+}
+
+struct St {
+    hist: Vec<usize>,
+    /// the base database that received the same commits directly (the statement's right-hand side)
+    oracle: InMemorySubstateDatabase,
+    /// independent plain-map reference (informational cross-check of the oracle)
+    model: RefDb,
+    /// harness-side bookkeeping for outcome classes: what the overlay should hold per partition
+    staged: BTreeMap<PKey, &'static str>,
+}
+
+struct M14 {
+    base: InMemorySubstateDatabase,
+    base_model: RefDb,
+    commits: Vec<Commit>,
+    updates: Vec<DatabaseUpdates>,
+}
+
+impl M14 {
+    fn new(base_commit: &Commit, commits: Vec<Commit>) -> Self {
+        let mut base = InMemorySubstateDatabase::standard();
+        base.commit(&base_commit.to_database_updates());
+        let mut base_model = RefDb::default();
+        base_model.apply(base_commit);
+        let updates = commits.iter().map(|c| c.to_database_updates()).collect();
+        M14 { base, base_model, commits, updates }
+    }
+
+    /// Compare everything the statement names between a database-like `x` and the oracle.
+    fn compare<D: SubstateDatabase>(&self, x: &D, st: &St, who: &str) -> Result<(), (String, String)> {
+        let ks = sort_keys();
+        for p in observed_partitions() {
+            for k in ks.iter().chain(std::iter::once(&vec![3u8])) {
+                let got = real_get(x, &p, k);
+                let want = real_get(&st.oracle, &p, k);
+                if got != want {
+                    return Err((format!("{who}:read"), format!("read {}/{} key {}: overlay {} vs base-with-commits {}", mc_core::hex(&p.0), p.1, mc_core::hex(k), show_opt(&got), show_opt(&want))));
+                }
+                if want != st.model.get(&p, k) {
+                    return Err(("info".into(), "base-db-read-differs-from-plain-map-model".into()));
+                }
+            }
+            let got = real_list(x, &p, None);
+            let want = real_list(&st.oracle, &p, None);
+            if got != want {
+                return Err((format!("{who}:list-from-start"), format!("listing {}/{} from start: overlay {} vs base-with-commits {}", mc_core::hex(&p.0), p.1, show_list(&got), show_list(&want))));
+            }
+            if want != st.model.list_from(&p, None) {
+                return Err(("info".into(), "base-db-listing-differs-from-plain-map-model".into()));
+            }
+            for c in cursors() {
+                let got = real_list(x, &p, Some(&c));
+                let want = real_list(&st.oracle, &p, Some(&c));
+                if got != want {
+                    return Err((
+                        format!("{who}:list-from-cursor"),
+                        format!("listing {}/{} from cursor {}: overlay {} vs base-with-commits {}", mc_core::hex(&p.0), p.1, mc_core::hex(&c), show_list(&got), show_list(&want)),
+                    ));
+                }
+                if want != st.model.list_from(&p, Some(&c)) {
+                    return Err(("info".into(), "base-db-listing-differs-from-plain-map-model".into()));
+                }
+            }
+        }
+        Ok(())
+    }
+}
+
+static INFO_TOTAL: std::sync::Mutex<BTreeMap<String, u64>> = std::sync::Mutex::new(BTreeMap::new());
+
+fn note_info(s: &str) {
+    *INFO_TOTAL.lock().unwrap().entry(s.to_string()).or_insert(0) += 1;
+}
+
+impl Machine for M14 {
+    type Op = OpIx;
+    type St = St;
+
+    fn init(&self) -> St {
+        St { hist: vec![], oracle: self.base.clone(), model: self.base_model.clone(), staged: BTreeMap::new() }
+    }
+
+    fn ops(&self, _st: &St, _depth: usize) -> Vec<OpIx> {
+        (0..self.commits.len()).map(|i| OpIx(i as u16)).collect()
+    }
+
+    fn fork(&self, st: &St) -> Option<St> {
+        Some(St { hist: st.hist.clone(), oracle: st.oracle.clone(), model: st.model.clone(), staged: st.staged.clone() })
+    }
+
+    fn step(&self, st: &mut St, op: &OpIx) -> Result<String, (String, String)> {
+        let i = op.0 as usize;
+        st.hist.push(i);
+        st.oracle.commit(&self.updates[i]);
+        st.model.apply(&self.commits[i]);
+        // class bookkeeping (what kind of merge the overlay had to perform)
+        let mut class = vec![];
+        for a in &self.commits[i].0 {
+            let prev = st.staged.get(&a.pkey()).copied().unwrap_or("none");
+            class.push(format!("{}-onto-{}", a.pu.kind(), prev));
+            let now = match (&a.pu, prev) {
+                (PU::Reset(_), _) => "reset",
+                (PU::Delta(_), "reset") => "reset",
+                (PU::Delta(_), _) => "delta",
+            };
+            st.staged.insert(a.pkey(), now);
+        }
+        let class = class.join("&");
+
+        // reads through an unmergeable overlay holding the whole history
+        let mut ov = SubstateDatabaseOverlay::new_unmergeable(&self.base);
+        for &j in &st.hist {
+            ov.commit(&self.updates[j]);
+        }
+        match self.compare(&ov, st, "overlay") {
+            Ok(()) => {}
+            Err((k, w)) if k == "info" => note_info(&w),
+            Err(e) => return Err(e),
+        }
+        drop(ov);
+
+        // merge clause: a mergeable overlay with the same history, merged into a copy of the base
+        let mut merged_base = self.base.clone();
+        {
+            let mut ov = SubstateDatabaseOverlay::new_mergeable(&mut merged_base);
+            for &j in &st.hist {
+                ov.commit(&self.updates[j]);
+            }
+            ov.commit_overlay_into_root_store();
+            // the (now empty) overlay over the merged root must still read like the oracle
+            match self.compare(&ov, st, "overlay-after-merge") {
+                Ok(()) => {}
+                Err((k, w)) if k == "info" => note_info(&w),
+                Err(e) => return Err(e),
+            }
+        }
+        if merged_base != st.oracle {
+            let got = real_contents(&merged_base);
+            let want = real_contents(&st.oracle);
+            return Err(("merge:whole-database".into(), format!("merged base {} vs base-with-commits {}", got.to_json(), want.to_json())));
+        }
+        Ok(class)
+    }
+
+    fn fingerprint(&self, st: &St) -> Vec<u8> {
+        // The overlay's whole state is its staged updates (the base never changes inside one search).
+        let mut ov = SubstateDatabaseOverlay::new_unmergeable(&self.base);
+        for &j in &st.hist {
+            ov.commit(&self.updates[j]);
+        }
+        let bytes = radix_common::prelude::scrypto_encode(&ov.database_updates()).expect("encodable");
+        mc_core::fp128(&bytes)
+    }
+}
+
+pub fn run(ctx: Ctx) -> ! {
+    if let Some(case) = ctx.read_replay_case() {
+        replay(ctx, case);
+    }
+    // thorough: the full alphabet at depth 3 and the core alphabet at depth 4 are both explored
+    let plan: Vec<(bool, usize)> = if ctx.quick() { vec![(false, 3)] } else { vec![(true, 3), (false, 4)] };
+    let mut total = BfsStats::default();
+    let mut exhaustive = true;
+    let mut table = vec![];
+    let mut offsets = vec![];
+    for (full, _) in &plan {
+        offsets.push(table.len());
+        table.extend(alphabet(*full));
+    }
+    install_table(table.clone());
+    let mut cov_extra = serde_json::Map::new();
+    for (pi, (full, depth)) in plan.iter().enumerate() {
+        let commits: Vec<Commit> = alphabet(*full);
+        for (tag, base_commit) in bases() {
+            let m = M14Offset { inner: M14::new(&base_commit, commits.clone()), offset: offsets[pi] };
+            let wall_cap = ctx.pick(40.0, 420.0);
+            let s = bfs(&ctx, &m, tag, *depth, 40_000_000, wall_cap);
+            if s.capped {
+                exhaustive = false;
+            }
+            cov_extra.insert(
+                format!("{}:{}:depth{}", if *full { "full-alphabet" } else { "core-alphabet" }, tag, depth),
+                json!({"alphabet": commits.len(), "states": s.states, "transitions": s.transitions, "depth_completed": s.depth_completed, "capped": s.capped}),
+            );
+            total.add(&s);
+        }
+    }
+    for (k, v) in INFO_TOTAL.lock().unwrap().iter() {
+        ctx.info(k, *v);
+    }
+    let mut cov = total.coverage();
+    cov.insert("searches".into(), serde_json::Value::Object(cov_extra));
+    cov.insert("bases".into(), json!(["empty", "sparse", "dense"]));
+    let nontrivial = total.states;
+    ctx.finish(
+        Level::ModelChecking,
+        "a state is a distinct staged-update content of the real overlay (fingerprint of database_updates()) per base; a transition is one commit followed by all reads/listings on 5 partitions (5 point reads, listing from start, 8 cursors) plus a merge into a copy of the base; non-trivial = distinct overlay states reached",
+        nontrivial,
+        exhaustive,
+        cov,
+        &[
+            "the base is an InMemorySubstateDatabase; other base implementations are covered by C15",
+            "dedup by overlay content: the overlay's behaviour is a function of its staged updates and the (fixed) base",
+        ],
+    )
+}
+
+/// Same machine, but op handles are offsets into the global commit table (several alphabets per run).
+struct M14Offset {
+    inner: M14,
+    offset: usize,
+}
+
+impl Machine for M14Offset {
+    type Op = OpIx;
+    type St = St;
+    fn init(&self) -> St {
+        self.inner.init()
+    }
+    fn ops(&self, st: &St, depth: usize) -> Vec<OpIx> {
+        self.inner.ops(st, depth).into_iter().map(|o| OpIx(o.0 + self.offset as u16)).collect()
+    }
+    fn fork(&self, st: &St) -> Option<St> {
+        self.inner.fork(st)
+    }
+    fn step(&self, st: &mut St, op: &OpIx) -> Result<String, (String, String)> {
+        self.inner.step(st, &OpIx(op.0 - self.offset as u16))
+    }
+    fn fingerprint(&self, st: &St) -> Vec<u8> {
+        self.inner.fingerprint(st)
+    }
+}
+
+fn replay(ctx: Ctx, case: serde_json::Value) -> ! {
+    let hist = history_from_case(&case);
+    let tag = case.get("base").and_then(|b| b.as_str()).unwrap_or("empty").to_string();
+    let base_commit = bases().into_iter().find(|(t, _)| *t == tag).map(|(_, c)| c).unwrap_or_else(|| mc_core::machinery_error("unknown base in replay case"));
+    install_table(hist.clone());
+    let m = M14::new(&base_commit, hist.clone());
+    let mut st = m.init();
+    for i in 0..hist.len() {
+        match m.step(&mut st, &OpIx(i as u16)) {
+            Ok(c) => println!("step {i} {:?}: ok ({c})", hist[i]),
+            Err((k, w)) => {
+                println!("step {i} {:?}: VIOLATION {k}: {w}", hist[i]);
+                ctx.violation(k, w, case.clone());
+                break;
+            }
+        }
+    }
+    ctx.finish(Level::ModelChecking, "replay", 0, false, serde_json::Map::new(), &[])
 }
